@@ -85,6 +85,8 @@ structure Worker where
   /-- history: connections successfully `try_send`-ed to this worker / handed to `handle_connection` -/
   dispatched : List Nat := []
   started : List Nat := []
+  /-- the drain loop of the Graceful arm found at least one queued connection -/
+  drainedAny : Bool := false
   signalled : Bool := false
   timedOut : Bool := false
   forced : Bool := false
@@ -124,14 +126,30 @@ structure State where
   w : Nat → Worker := fun _ => {}
   c : Nat → Conn := fun _ => {}
 
+/-- When does `Worker::run` yield to its `LocalSet` (`tokio::task::yield_now().await`) between the drain
+    loop and `GracefulShutdown::shutdown()`? -/
+inductive YieldPolicy where
+  | never       -- the code before the `fix:` commit
+  | ifDrained   -- only when the drain loop found something queued ("no need to go through the scheduler
+                -- if the queue was empty"): overlooks connections spawned by the REGULAR loop
+  | always      -- the `fix:` commit: unconditionally
+  deriving Repr, DecidableEq
+
 /-- `n` = `ServerConfiguration::n_workers`; `cap` = `max_queue_length` (15 in `Acceptor::new`);
-    `yieldBeforeSignal` = the worker yields to its `LocalSet` between the drain loop and
-    `GracefulShutdown::shutdown()` (the `fix:` commit; `false` describes the code before it). -/
+    `yieldPolicy` = when the worker yields to its `LocalSet` between the drain loop and the signal. -/
 structure Cfg where
   n : Nat
   cap : Nat := 15
-  yieldBeforeSignal : Bool := true
+  yieldPolicy : YieldPolicy := .always
   deriving Repr, DecidableEq
+
+/-- Does worker `W`, at the end of its drain loop, yield before it signals? One yield lets every task
+    already spawned on the worker's `LocalSet` be polled once (ASSUMED of tokio). -/
+def Cfg.yields (cfg : Cfg) (W : Worker) : Bool :=
+  match cfg.yieldPolicy with
+  | .never => false
+  | .ifDrained => W.drainedAny
+  | .always => true
 
 inductive Event where
   -- the caller
@@ -179,10 +197,10 @@ def allNotified (s : State) (n : Nat) : Bool := (List.range n).all fun w => (s.w
 /-- The thread of the worker serving `c` is still there. -/
 def workerAlive (s : State) (c : Nat) : Bool := (s.w (s.c c).worker).phase != .exited
 
-/-- `handle_connection` for `c` on worker `w` (spawn the task). -/
-def startConn (s : State) (w c : Nat) (rest : List Nat) : State :=
+/-- `handle_connection` for `c` on worker `w` (spawn the task); `drain`: called from the drain loop. -/
+def startConn (s : State) (w c : Nat) (rest : List Nat) (drain : Bool := false) : State :=
   let W := s.w w
-  (s.setW w { W with queue := rest, started := W.started ++ [c] }).setC c
+  (s.setW w { W with queue := rest, started := W.started ++ [c], drainedAny := W.drainedAny || drain }).setC c
     { s.c c with phase := .spawned, worker := w }
 
 /-- One transition. `none`: the event cannot happen in this state. -/
@@ -268,14 +286,14 @@ def step (cfg : Cfg) (s : State) : Event → Option State
     if (s.w w).phase = .closing then some (s.setW w { s.w w with phase := .draining, closed := true }) else none
   | .wDrain w c =>
     match (s.w w).queue with
-    | c' :: rest => if (s.w w).phase = .draining ∧ c' = c then some (startConn s w c rest) else none
+    | c' :: rest => if (s.w w).phase = .draining ∧ c' = c then some (startConn s w c rest true) else none
     | [] => none
   | .wDrainEnd w =>
     if (s.w w).phase = .draining ∧ (s.w w).queue = [] then some (s.setW w { s.w w with phase := .drained })
     else none
   | .wSignal w =>
     if (s.w w).phase = .drained ∧
-        (cfg.yieldBeforeSignal = true → allPhase s (fun p => p != .spawned) (s.w w).started = true) then
+        (cfg.yields (s.w w) = true → allPhase s (fun p => p != .spawned) (s.w w).started = true) then
       some (s.setW w { s.w w with phase := .waiting, signalled := true })
     else none
   | .wWaitEnd w r =>
